@@ -11,7 +11,7 @@ def run(tier, seed, replay=None):
     differential(check, 'C04', 'c04', 'c04', tier, seed, None, 2, 25, replay_text, sample_lines=8, timeout=1800)
     check.coverage['rule'] = ('each case: in-process server on loopback QUIC, a raw replier following the action embedded in every request {quick x3, late, never, twice, foreign id, hold '
                               '(answered after the next request)}, 1-3 real requestor streams each with 1-6 concurrent calls on clones (staggered 0-30 ms), timeout 400 ms, then a second '
-                              'round of quick calls after all late replies arrived; then requestor churn: a fresh stream whose only call is answered late is dropped, a new stream registers and its first call (never answered) must time out while that late reply is in flight, and the surviving streams still get their own replies; then, on a fresh stream, twice: a call answered only after its timeout, immediately followed (nothing else in flight) by a call that is never answered and must time out while the late reply arrives, then a quick call; then (every second case) contention on one stream: six clones send 1 MB requests to a replier that is slow to take them, one clone makes a 2 MiB request that fails locally after waiting its turn on the shared write half, another clone makes a small request meanwhile and the first one more after its failure - every Ok must carry the reply to its own request, the oversized request must end in an error; then an intruding raw requestor sends requests that already carry a cid header naming every other requestor stream of the topic and the req_id of a call pending (never answered) on a library requestor: that call must time out, not return the reply made for the intruder; then a requestor with two clones survives a cut connection (hook), each clone recovers on its own, and overlapping calls on the two clones - the first answered after the second - must each get their own reply; non-trivial = distinct (action, request) pair')
+                              'round of quick calls after all late replies arrived; then requestor churn: a fresh stream whose only call is answered late is dropped, a new stream registers and its first call (never answered) must time out while that late reply is in flight, and the surviving streams still get their own replies; then, on a fresh stream, twice: a call answered only after its timeout, immediately followed (nothing else in flight) by a call that is never answered and must time out while the late reply arrives, then a quick call, then a call answered with bytes the decoder rejects (an error for that call) and a quick call on the same handle; then (every second case) contention on one stream: six clones send 1 MB requests to a replier that is slow to take them, one clone makes a 2 MiB request that fails locally after waiting its turn on the shared write half, another clone makes a small request meanwhile and the first one more after its failure - every Ok must carry the reply to its own request, the oversized request must end in an error; then an intruding raw requestor sends requests that already carry a cid header naming every other requestor stream of the topic and the req_id of a call pending (never answered) on a library requestor: that call must time out, not return the reply made for the intruder; then a requestor with two clones survives a cut connection (hook), each clone recovers on its own, and overlapping calls on the two clones - the first answered after the second - must each get their own reply; non-trivial = distinct (action, request) pair')
     check.coverage['trusted_base'] = TRUSTED_BASE_COMMON + [
         'assumed: tokio::time::timeout fires; QUIC delivery; the server routes replies by its own origin tag (C02)',
         'hook: Client::__verif_close_connection (cargo feature verif-hooks of the selium crate) for the outage phase',
